@@ -11,6 +11,16 @@ package cluster
 // compacts the store and restarts normally: the syncers' resumed watches are then cancelled.  After the last
 // write the harness waits until every consumer's view equals the content read back from the store
 // (or a generous deadline passes) and logs the view as a `conv` claim.  Syncer_Trace (TLC) decides.
+//
+// Keys: k1 (the key the single-key consumers watch), k1x (a sibling whose name has k1 as a string
+// prefix: under the prefix, outside a watch of k1), k2, k3.  The first scenario of every even wave is
+// "big": before its consumers start, the prefix is filled with c19Fillers keys that sort between k2 and
+// k3 and are never written again (k1 and k3 are then the first and the last key of a range read over
+// far more keys than any sensible page size), its writer uses a value it never used before for every
+// write (a content mixed from two store revisions is then no content the store ever had) and hammers
+// transactions over k1 / k1x / k2 and k3 back to back while the consumers pull.  The fillers appear in
+// contents as the pseudo-key "fill": "f1" = exactly the fillers with their values, "none" = no filler,
+// anything else is written out ("bad:...") and matches no content of the store.
 
 import (
 	"context"
@@ -39,7 +49,16 @@ const (
 	c19ConvDeadline = 40 * time.Second
 )
 
-var c19Keys = []string{"k1", "k2", "k3"}
+var c19Keys = []string{"k1", "k1x", "k2", "k3"}
+
+// keys of a content as logged (Keys of Syncer_Trace)
+var c19ViewKeys = []string{"k1", "k1x", "k2", "k3", "fill"}
+
+const (
+	c19Fillers    = 1300
+	c19FillerVal  = "f"
+	c19FillerName = "k2f%05d" // sorts after k2, before k3
+)
 
 func c19Options(dir string) *option.Options {
 	opt := option.New()
@@ -158,7 +177,7 @@ type c19Consumer struct {
 
 func c19EmptyView() map[string]string {
 	m := map[string]string{}
-	for _, k := range c19Keys {
+	for _, k := range c19ViewKeys {
 		m[k] = "none"
 	}
 	return m
@@ -166,10 +185,49 @@ func c19EmptyView() map[string]string {
 
 func c19ViewM(v map[string]string) vx.M {
 	m := vx.M{}
-	for _, k := range c19Keys {
+	for _, k := range c19ViewKeys {
 		m[k] = v[k]
 	}
 	return m
+}
+
+func c19IsKey(k string) bool {
+	for _, x := range c19Keys {
+		if x == k {
+			return true
+		}
+	}
+	return false
+}
+
+// c19View turns a delivered (or read back) map short key -> value into a content over c19ViewKeys.
+func c19View(m map[string]string) map[string]string {
+	v := c19EmptyView()
+	fillers, bad := 0, ""
+	for k, val := range m {
+		switch {
+		case c19IsKey(k):
+			v[k] = val
+		case len(k) == 8 && k[:3] == "k2f":
+			fillers++
+			if val != c19FillerVal && bad == "" {
+				bad = "bad:value-of-" + k
+			}
+		default:
+			if bad == "" {
+				bad = "bad:unknown-key-" + k
+			}
+		}
+	}
+	switch {
+	case bad != "":
+		v["fill"] = bad
+	case fillers == c19Fillers:
+		v["fill"] = "f1"
+	case fillers != 0:
+		v["fill"] = fmt.Sprintf("bad:%d-of-%d-fillers", fillers, c19Fillers)
+	}
+	return v
 }
 
 type c19Scenario struct {
@@ -181,6 +239,8 @@ type c19Scenario struct {
 	cons     []*c19Consumer
 	rng      *rand.Rand
 	stalling bool
+	big      bool              // filled prefix, never-repeated values, hammering transactions
+	nval     int               // big: values used so far
 	content  map[string]string // what the writer believes (only used to choose interesting operations)
 	failed   string
 }
@@ -190,10 +250,7 @@ func (s *c19Scenario) key(k string) string { return s.prefix + k }
 // recv records one snapshot of a consumer. `m` maps short key names to values. The view and the
 // log are updated together under the consumer's lock (converge reads both under the same lock).
 func (s *c19Scenario) recv(cn *c19Consumer, m map[string]string) {
-	v := c19EmptyView()
-	for k, val := range m {
-		v[k] = val
-	}
+	v := c19View(m)
 	cn.mu.Lock()
 	cn.view = v
 	cn.n++
@@ -310,25 +367,66 @@ func (s *c19Scenario) startConsumers() error {
 	return nil
 }
 
-// one write through the cluster API (cli == nil) or through a fresh etcd client
-func (s *c19Scenario) write(cli *clientv3.Client) {
+func c19KeepSet() vx.M {
+	set := vx.M{}
+	for _, k := range c19ViewKeys {
+		set[k] = "keep"
+	}
+	return set
+}
+
+// fill puts the fillers (chunks of 100 per transaction), logged as one write of the pseudo-key: no
+// consumer exists yet, nobody can observe a partly filled prefix.
+func (s *c19Scenario) fill() {
+	set := c19KeepSet()
+	set["fill"] = "f1"
+	s.log.Emit(vx.M{"ev": "w.inv", "op": "fill", "set": set})
+	var err error
+	val := c19FillerVal
+	for i := 0; i < c19Fillers && err == nil; i += 100 {
+		kvs := map[string]*string{}
+		for j := i; j < i+100 && j < c19Fillers; j++ {
+			kvs[s.key(fmt.Sprintf(c19FillerName, j))] = &val
+		}
+		err = s.c.PutAndDelete(kvs)
+	}
+	s.content["fill"] = "f1"
+	s.log.Emit(vx.M{"ev": "w.ret", "op": "fill", "ok": err == nil})
+	if err != nil {
+		s.failed = fmt.Sprintf("filling the prefix failed: %v", err)
+	}
+}
+
+// one write through the cluster API (cli == nil) or through a fresh etcd client; hammer = a transaction
+// that changes one of the first keys of the prefix together with its last key
+func (s *c19Scenario) write(cli *clientv3.Client, hammer bool) {
 	if s.failed != "" {
 		return
 	}
-	set := vx.M{}
-	for _, k := range c19Keys {
-		set[k] = "keep"
+	set := c19KeepSet()
+	val := func() string {
+		if s.big {
+			s.nval++
+			return fmt.Sprintf("u%d", s.nval)
+		}
+		return []string{"v1", "v2", "v3"}[s.rng.Intn(3)]
 	}
-	val := func() string { return []string{"v1", "v2", "v3"}[s.rng.Intn(3)] }
 	k := c19Keys[s.rng.Intn(len(c19Keys))]
-	if s.rng.Intn(2) == 0 {
+	switch x := s.rng.Intn(10); {
+	case x < 4:
 		k = "k1" // the key the single-key consumers watch
+	case x < 6:
+		k = "k1x" // its sibling: the watched key is a string prefix of this one
 	}
 	var err error
 	op := ""
 	ctx, cancel := context.WithTimeout(context.Background(), 8*time.Second)
 	defer cancel()
-	switch x := s.rng.Intn(100); {
+	x := s.rng.Intn(100)
+	if hammer || (s.big && x >= 80 && x < 88) {
+		x = 55 // big scenarios keep their fillers: no DeletePrefix
+	}
+	switch {
 	case x < 35: // put
 		v := val()
 		if s.rng.Intn(4) == 0 && s.content[k] != "none" {
@@ -351,11 +449,20 @@ func (s *c19Scenario) write(cli *clientv3.Client) {
 		}
 	case x < 80: // transaction over two or three keys
 		kvs := map[string]*string{}
-		n := 2 + s.rng.Intn(2)
-		perm := s.rng.Perm(3)
-		for _, i := range perm[:n] {
-			kk := c19Keys[i]
+		var chosen []string
+		if hammer {
+			chosen = []string{[]string{"k1", "k1", "k1x", "k2"}[s.rng.Intn(4)], "k3"}
 			if s.rng.Intn(3) == 0 {
+				chosen = append(chosen, "k2")
+			}
+		} else {
+			n := 2 + s.rng.Intn(2)
+			for _, i := range s.rng.Perm(len(c19Keys))[:n] {
+				chosen = append(chosen, c19Keys[i])
+			}
+		}
+		for _, kk := range chosen {
+			if s.rng.Intn(3) == 0 && !(hammer && s.rng.Intn(2) == 0) {
 				kvs[s.key(kk)] = nil
 				set[kk] = "none"
 			} else {
@@ -381,7 +488,7 @@ func (s *c19Scenario) write(cli *clientv3.Client) {
 		}
 	case x < 88: // delete the whole prefix
 		op = "delprefix"
-		for _, kk := range c19Keys {
+		for _, kk := range c19ViewKeys {
 			set[kk] = "none"
 		}
 		s.log.Emit(vx.M{"ev": "w.inv", "op": op, "set": set})
@@ -411,17 +518,24 @@ func (s *c19Scenario) write(cli *clientv3.Client) {
 	}
 }
 
+// hammer: n transactions back to back, each changing one of the first keys and the last key of the prefix
+func (s *c19Scenario) hammer(n int) {
+	for i := 0; i < n; i++ {
+		s.write(nil, s.rng.Intn(5) > 0)
+	}
+}
+
 // steady: n writes a few milliseconds apart, so that (nearly) every one of them is pulled and sent
 func (s *c19Scenario) steady(n int) {
 	for i := 0; i < n; i++ {
-		s.write(nil)
+		s.write(nil, false)
 		time.Sleep(time.Duration(4+s.rng.Intn(10)) * time.Millisecond)
 	}
 }
 
 func (s *c19Scenario) burst(n int, cli *clientv3.Client) {
 	for i := 0; i < n; i++ {
-		s.write(cli)
+		s.write(cli, false)
 		if d := s.rng.Intn(4); d == 3 {
 			time.Sleep(time.Duration(s.rng.Intn(30)) * time.Millisecond)
 		} else if d == 2 {
@@ -441,17 +555,18 @@ func (s *c19Scenario) converge() {
 	lastN := -1
 	for {
 		kvs, err := s.c.GetPrefix(s.prefix)
-		cur := c19EmptyView()
+		short := map[string]string{}
 		for k, v := range kvs {
-			cur[s.short(k)] = v
+			short[s.short(k)] = v
 		}
+		cur := c19View(short)
 		for _, cn := range s.cons {
 			cn.mu.Lock()
 		}
 		all, total := err == nil, 0
 		for _, cn := range s.cons {
 			total += cn.n
-			for _, k := range c19Keys {
+			for _, k := range c19ViewKeys {
 				want := cur[k]
 				if cn.kind == "key" && k != "k1" {
 					want = "none"
@@ -552,7 +667,13 @@ func TestVerifC19Syncer(t *testing.T) {
 				s.cons[0].stallAfter, s.cons[0].stall = lr.Intn(2), time.Duration(1500+lr.Intn(2000))*time.Millisecond
 			}
 			s.stalling = stalling
-			s.log.Emit(vx.M{"ev": "reset", "scen": scenID, "wave": wave, "faulty": faulty, "consumers": nc, "stalling": stalling})
+			s.big = i == 0 && wave%2 == 0
+			if s.big && nc < 3 {
+				// at least one prefix consumer
+				s.cons[0].api, s.cons[0].kind = "SyncPrefix", "prefix"
+				s.cons[1].api, s.cons[1].kind = "SyncRawPrefix", "prefix"
+			}
+			s.log.Emit(vx.M{"ev": "reset", "scen": scenID, "wave": wave, "faulty": faulty, "consumers": nc, "stalling": stalling, "big": s.big})
 			scs = append(scs, s)
 		}
 		plan := make([]struct{ pre, p1, post, p2 int }, len(scs))
@@ -574,6 +695,9 @@ func TestVerifC19Syncer(t *testing.T) {
 		}
 		// initial content, consumers, first phase (the last write may be immediately followed by the stop)
 		par(func(i int, s *c19Scenario) {
+			if s.big {
+				s.fill()
+			}
 			s.burst(plan[i].pre, nil)
 			if err := s.startConsumers(); err != nil {
 				s.failed = "starting consumers: " + err.Error()
@@ -582,9 +706,13 @@ func TestVerifC19Syncer(t *testing.T) {
 			if s.rng.Intn(2) == 0 {
 				time.Sleep(time.Duration(s.rng.Intn(400)) * time.Millisecond)
 			}
-			if s.stalling {
+			switch {
+			case s.big:
+				s.hammer(100 + s.rng.Intn(60))
+				s.burst(plan[i].p1, nil)
+			case s.stalling:
 				s.steady(30 + s.rng.Intn(20))
-			} else {
+			default:
 				s.burst(plan[i].p1, nil)
 			}
 		})
